@@ -49,7 +49,7 @@ def classify_exc(e):
             isinstance(e, mexc.MosRoMgrException), innermost_site(e.__traceback__))
 
 
-def run_step(ro_xml, msg_xml, ro_obj=None, msg_obj=None, filt='always'):
+def run_step(ro_xml, msg_xml, ro_obj=None, msg_obj=None, filt='always', via_merge=False):
     """Parse both documents with the library and perform `ro += msg`.
     ro_obj / msg_obj allow re-use of live objects (histories)."""
     o = Obs()
@@ -75,7 +75,11 @@ def run_step(ro_xml, msg_xml, ro_obj=None, msg_obj=None, filt='always'):
         o.before = str(ro)
         o.msg_before = str(msg)
         try:
-            ro += msg
+            if via_merge and not ro.completed:
+                # the other documented route: msg.merge(ro) (what `+` calls after its completed guard)
+                msg.merge(ro)
+            else:
+                ro += msg
         except Exception as e:
             o.exc = e
             o.exc_type, o.exc_is_merge, o.exc_is_mos, o.exc_site = classify_exc(e)
